@@ -72,7 +72,7 @@ func runChild(path string) int {
 	w.keyOf = func(string) string { return "" }
 	w.exts = func() *projSpec { return req.Spec }
 	pc := req.Proc
-	pc.WatchdogS = 40
+	pc.WatchdogS = 120
 	res := w.process("child", pc, buildOpts{Label: req.Label, Args: req.Spec.args()}, nil)
 	out := childRes{Reasons: map[string]string{}, Steps: res.Sim.Steps()}
 	for _, r := range w.log {
